@@ -165,7 +165,7 @@ def prop_tensor(case, ctx):
 def planner_cases(draw, tier="quick"):
     spec = draw(mdp_specs("discounted", min_states=2, max_states=5, max_actions=3, allow_explicit=True,
                           absorbing_kinds=("n", "n", "n", "imp"), gammas=[0.3, 0.6, 0.9]))
-    return {"mdp": spec, "w": draw(st.sampled_from([0.1, 0.5, 1, 1.0, 2.0, 10]))}
+    return {"mdp": spec, "w": draw(st.sampled_from([0.1, 0.5, 1, 1.0, 2.0, 10, 0.01, 0.001]))}
 
 
 def planner_large_cases(tier):
